@@ -5,7 +5,7 @@ from tools.props.cache_units import RemoteSeqUnit, RemoteCrashUnit, RemoteConcUn
 
 class P(Property):
     id = "C19"
-    gen_targets = ["Registry"]
+    gen_targets = ["Registry", "CacheSkeleton"]
     assumptions = ["atomicity of os.rename, CPython closing the pickle file before the rename, and real parallelism are assumed by the model's step granularity "
                    "and observed by the crash (killed subprocesses) and gated-thread runs"]
 
